@@ -44,10 +44,101 @@ def analyse_decoder_unit(mod):
     return unit, entries, contracts, res
 
 
+_facts_cache = {}
+
+
+def near_miss(o):
+    """an index guard that is itself too weak: the access is `array[idx + k]` into [N x T], and a branch fact available at the access bounds idx
+    from above by a constant (idx < C / idx <= C) with C (- 1) + k >= N.  Returns the overshooting index or None.  (The interval of the
+    analysis is not used for this: it may be wide for lack of a relation, which says nothing about the code.)"""
+    try:
+        import re as _re
+        from .facts import Facts, Matcher
+        inst = o.inst
+        fn = inst.fn
+        ptr = o.ptr_op if o.ptr_op is not None else (inst.ops[0] if inst.op in ("load", "getelementptr") else (inst.ops[1] if inst.op == "store" else None))
+        if ptr is None:
+            return None
+        g = fn.defn(ptr)
+        hops = 0
+        while g is not None and not g.is_param and g.op in ("bitcast",) and hops < 4:
+            g = fn.defn(g.ops[0]); hops += 1
+        if inst.op == "getelementptr":
+            g = inst
+        if g is None or g.is_param or g.op != "getelementptr" or not g.steps:
+            return None
+        # the array step with a variable index (in this gep or in the gep that produced its base: `&array[i]` then `->field`)
+        var = []
+        for _ in range(4):
+            var = [s_ for s_ in (g.steps or []) if "idx" in s_ and not is_const(s_["idx"])]
+            if var:
+                break
+            g2 = fn.defn(g.ops[0])
+            while g2 is not None and not g2.is_param and g2.op == "bitcast":
+                g2 = fn.defn(g2.ops[0])
+            if g2 is None or g2.is_param or g2.op != "getelementptr":
+                break
+            g = g2
+        base = fn.defn(g.ops[0])
+        bty = base.ty if base is not None else ""
+        if len(var) != 1:
+            return None
+        n_el = None
+        for s_ in g.steps:
+            if s_ is var[0]:
+                n_el = s_.get("n")
+        if n_el is None:
+            m = _re.match(r"^\[(\d+) x ", bty)
+            n_el = int(m.group(1)) if m else None
+        if not n_el:
+            return None
+        key = (id(fn.mod), fn.name)
+        if key not in _facts_cache:
+            _facts_cache[key] = Facts(fn)
+        F = _facts_cache[key]
+        M = Matcher(fn)
+        # idx = atom + k through widenings and +/- constants
+        k = 0
+        x = var[0]["idx"]
+        for _ in range(8):
+            d = fn.defn(x)
+            if d is None or d.is_param:
+                break
+            if d.op in ("zext", "sext", "trunc"):
+                x = d.ops[0]; continue
+            if d.op in ("add", "sub") and is_const(d.ops[1]) and const_val(d.ops[1]) is not None:
+                c = const_val(d.ops[1])
+                if c >= (1 << 31):
+                    c -= (1 << 32) if c < (1 << 32) else (1 << 64)
+                k += c if d.op == "add" else -c
+                x = d.ops[0]; continue
+            break
+        xs = M.strip(x)
+        best = None
+        for f in F.at_inst(inst):
+            if f[0] == "in" or M.strip(f[1]) != xs or not is_const(f[2]) or const_val(f[2]) is None:
+                continue
+            c = const_val(f[2])
+            if c >= (1 << 31):
+                continue
+            ub = c - 1 if f[0] in ("ult", "slt") else (c if f[0] in ("ule", "sle") else None)
+            if ub is not None:
+                best = ub if best is None else min(best, ub)
+        if best is not None and best + k >= n_el:
+            return best + k
+    except Exception:
+        return None
+    return None
+
+
 def classify_obligation(o, unit_name="."):
     """'ok' | 'assumed:<name>' | 'unknown-extent' | 'UNPROVEN'"""
     if o.ok:
         return "ok"
+    if near_miss(o) is not None:
+        # the analysis *has* a finite bound for this access (a guard in the code bounds the index) and it overshoots the object by a few
+        # bytes: that is an off-by-one in the guard, not a tree-shape invariant - no assumption covers it
+        return "UNPROVEN"
     for un, src, obj, kind, name in A.OBLIGATION_ASSUMPTIONS:
         # the source function may be the site's own or any function it was inlined from through (a helper extracted from a listed
         # function is still that function's code)
